@@ -45,6 +45,12 @@ PRELUDE = r"""
 #endif
 /* stand-ins for C++ library types that occur as fields (their operations are rewritten per suite or stubbed) */
 typedef struct rxv_vector { void* data; size_t size; } rxv_vector;
+/* stand-in for a vector of int with at most 8 elements (candidate register lists of the SuperscalarHash generator); overflow is an error */
+typedef struct rxv_ivec8 { int item[8]; size_t size; } rxv_ivec8;
+static inline void rxv_ivec8_push(rxv_ivec8* v, int x) { __CPROVER_assert(v->size < 8, "rxv_ivec8 capacity"); v->item[v->size] = x; v->size++; }
+static inline void rxv_ivec8_clear(rxv_ivec8* v) { v->size = 0; }
+static inline size_t rxv_ivec8_size(const rxv_ivec8* v) { return v->size; }
+static inline int rxv_ivec8_at(const rxv_ivec8* v, size_t i) { __CPROVER_assert(i < v->size, "rxv_ivec8 index in range"); return v->item[i]; }
 typedef struct rxv_string { const char* data; size_t size; unsigned long long id; /* abstract identity of the byte string: equal ids <=> equal strings */ } rxv_string;
 #define rxv_string_eq(a, b) ((a)->id == (b)->id)
 /* TRUSTED abstraction of the C++ standard string (suites using it say so): the identity of a byte string is an uninterpreted function of
@@ -434,6 +440,12 @@ class Translator:
             if f.item is None:
                 continue
         text = "\n".join(out)
+        # objects with per-thread storage among the emitted file-scope variables: frame contracts that speak about what one
+        # thread may touch append them to their assigns clause (RXV_THREAD_LOCAL_TARGETS starts with a comma when non-empty)
+        tls = re.findall(r"^[^\n;{}]*\b__thread\b[^\n;(){}=]*?\b(\w+)\s*(?:=[^;]*)?;", text, flags=re.M)
+        text += "\n#define RXV_THREAD_LOCAL_TARGETS %s\n" % "".join(", " + n for n in tls)
+        if tls:
+            self.fire("thread-local file-scope objects listed for frame contracts", len(tls))
         text += "\n\n#ifdef RXV_CONTRACTS_H\n#include RXV_CONTRACTS_H\n#endif\n\n"
         # inline class methods kept: emit prototypes + bodies now
         for f in self.kept:
@@ -566,7 +578,10 @@ class Translator:
 
     # ----------------------------------------------------------------------------------
     def std_types(self, t):
-        t2 = re.sub(r"\bstd::vector\s*<[^<>]*>", "rxv_vector", t)
+        t2 = t
+        for elem, standin in self.spec.get("vector_as", {}).items():     # recipe: std::vector<elem> -> a typed stand-in
+            t2 = re.sub(r"\bstd::vector\s*<\s*%s\s*>" % re.escape(elem), standin, t2)
+        t2 = re.sub(r"\bstd::vector\s*<[^<>]*>", "rxv_vector", t2)
         t2 = re.sub(r"\bstd::string\b", "rxv_string", t2)
         if t2 != t:
             self.fire("std::vector/std::string -> stand-in struct")
@@ -768,6 +783,11 @@ class Translator:
     # ----------------------------------------------------------------------------------
     def parse_class(self, it, t, m, mo):
         name = mo.group(3)
+        if name in self.spec.get("opaque_classes", ()):
+            # the recipe needs this class only as the target of pointers: body, methods and static members are dropped
+            self.fire("class made opaque by recipe")
+            self.dropped_types.add(name)
+            return "text", "typedef struct %s %s;" % (name, name)
         c = self.classes.get(name) or Cls(name)
         c.item = it
         if mo.group(1) is not None:
@@ -1016,7 +1036,20 @@ class Translator:
                     inits.append("/* base/member ctor %s(...) not modelled */" % im.group(1))
                     self.fire("ctor init-list base call dropped")
             body = "{\n\t" + "\n\t".join(inits) + "\n" + body[1:]
-        return proto, proto + "\n" + body
+        # function-local statics (not thread-local, not const) are hoisted to file scope under a unique name: same object, same
+        # lifetime, same initial value - but visible to the frame checks of the contract instrumentation, which would otherwise
+        # add a function's own local statics to its frame silently although every thread calling the function shares them
+        hoisted = []
+        def hoist(mo):
+            if re.search(r"\b(__thread|const)\b", mo.group(0)):
+                return mo.group(0)
+            nm = "%s__%s" % (f.cname, mo.group(3))
+            hoisted.append("static %s%s%s;" % (mo.group(2), nm, mo.group(4) or ""))
+            self.fire("function-local static hoisted to file scope")
+            return "%s/* static local %s hoisted: %s */\n#define %s %s\n" % (mo.group(1), mo.group(3), nm, mo.group(3), nm)
+        body = re.sub(r"(^|\n)[ \t]*static\s+([^;=(){}]*?[\s*])(\w+)\s*(=[^;]*)?;", hoist, body)
+        undef = "".join("#undef %s\n" % re.search(r"__(\w+?)(?:\[|\s|=|;)", h.split("static ", 1)[1].split(f.cname, 1)[1]).group(1) for h in hoisted)
+        return proto, "\n".join(hoisted) + ("\n" if hoisted else "") + proto + "\n" + body + ("\n" + undef if hoisted else "")
 
     def expr_only_fix(self, e, f):
         g = Func()
